@@ -1,7 +1,7 @@
 (* Properties/C08.v — Applying a diff to the right document reconstructs the left one. *)
 From Coq Require Import List String Bool ZArith Arith.
 From YT Require Import Base.Str Base.KV Base.Sort Model.Doc Model.Dom Model.Builder Model.Diff Model.Apply
-  Proofs.BuilderProofs Proofs.ApplyProofs.
+  Model.Path Proofs.BuilderProofs Proofs.PathProofs Proofs.ApplyProofs Proofs.ApplyLookupProofs.
 Import ListNotations.
 Local Open Scope list_scope.
 
@@ -17,10 +17,20 @@ Theorem C08_apply_delete_absent : forall path kvs,
 Proof. exact apply_delete_absent. Qed.
 Print Assumptions C08_apply_delete_absent.
 
-(* Full statements not yet proved; decided on every run by the correspondence (the whole
-   resulting document of Apply(R, Diff(L,R)) is compared with this model, and
-   Flatten(Apply(R,Diff(L,R))) == Flatten(L) is a Go-side oracle):
-   - apply_add_lookup   : lookup p (apply d [Add p v]) = Some (Leaf v) for flatten-style p
+(* Apply with a single Add or Change at any flatten-style path p (the rendering of a position:
+   a key first, then keys and list indexes, keys path-safe) makes Lookup(p) return that value,
+   whatever the document looked like before (missing parents are created, parents of the wrong
+   kind are replaced, lists are padded). *)
+Theorem C08_apply_add_lookup : forall k r v old t kvs,
+  forallb step_safe (K k :: r) = true -> t = MAdd \/ t = MChange ->
+  lookup (render_steps (K k :: r))
+         (apply (Con kvs) [mkMod t (render_steps (K k :: r)) v old]) = Some (Leaf v).
+Proof. exact apply_add_lookup. Qed.
+Print Assumptions C08_apply_add_lookup.
+
+(* Not proved (C08_reconstruction is decided on every run by the correspondence: the whole
+   document Apply(R, Diff(L,R)) is compared with this model, and
+   Flatten(Apply(R,Diff(L,R))) == Flatten(L) is a Go-side oracle on the stated domain):
    - apply_diff_flatten : compatible l r -> every_item_has_scalar l r ->
                           flatten (apply r (diff l r)) = flatten l *)
 
